@@ -90,7 +90,8 @@ def cases():
     for s in STMTS:
         yield [s]
     for a, b in itertools.combinations(range(len(STMTS)), 2):
-        if (a * 7 + b * 3) % 11 == 0:
+        # quick tier: a fixed eleventh of the pairs; thorough tier: every pair of statements
+        if realrun.thorough() or (a * 7 + b * 3) % 11 == 0:
             yield [STMTS[a], STMTS[b]]
 
 
